@@ -216,6 +216,26 @@ pub fn run(tier: &str, seed: u64, order: usize, out: &mut Out) {
             }
             imported_all.push(all_artefacts(&main, &paths));
         }
+        // development mode (TmplGroup::new_dev: the generated code carries the list of active attributes of every element):
+        // compiled twice in this process, compared across processes through the digest
+        let dev = |rev: bool| -> Vec<(String, String)> {
+            let mut tg = TmplGroup::new_dev();
+            let mut idx: Vec<usize> = (0..g.files.len()).collect();
+            if rev {
+                idx.reverse();
+            }
+            for (p, s) in g.scripts.iter() {
+                tg.add_script(p, s);
+            }
+            for i in idx {
+                { crate::util::note_input(&*g.files[i].1); tg.add_tmpl(&g.files[i].0, &g.files[i].1) };
+            }
+            all_artefacts(&tg, &paths)
+        };
+        let dev_a = dev(false);
+        let dev_b = dev(true);
+        let dev_same = dev_a.iter().zip(dev_b.iter()).all(|(a, b)| a.1 == b.1);
+        let dev_digest: u64 = dev_a.iter().fold(0u64, |h, (k, s)| h.rotate_left(7) ^ fnv(k) ^ fnv(s));
         let r = reference.unwrap();
         let import_equal = imported_all.iter().all(|imported| imported.iter().zip(r.iter()).all(|(a, b)| a.1 == b.1));
         let digest: Vec<String> = r.iter().map(|(k, s)| format!("{}={:016x}", k, fnv(s))).collect();
@@ -223,7 +243,9 @@ pub fn run(tier: &str, seed: u64, order: usize, out: &mut Out) {
         let order = g_order(bundle, paths);
         glines.push(format!(
             "GROUP {} files={} perms={} perm_diffs={} import_equal={} first_diff={:?} digest={}",
-            gi, k, perms.len(), n_diff, import_equal, first_diff, digest.join(",")
+            gi, k, perms.len(), n_diff + if dev_same { 0 } else { 1 }, import_equal,
+            if first_diff.is_empty() && !dev_same { "development-mode artefacts differ between two compilations".to_string() } else { first_diff.clone() },
+            digest.join(",") + &format!(",dev={:016x}", dev_digest)
         ));
         // model case: emission order of the G[...] assignments
         let keys: Vec<String> = paths.iter().map(|p| enc(p)).collect();
@@ -243,7 +265,15 @@ pub fn run(tier: &str, seed: u64, order: usize, out: &mut Out) {
         ".a .b > .c { width: 10rpx; color: red } @media (min-width: 1px) { .d { margin: calc(1rpx + 2px) } }",
         ":host { color: red } @import 'a.wxss'; .x:not(.y) { top: 1.5rpx }",
     ];
+    // the sheet is also compiled under a relative path that exists on disk below the working directory, in a scratch
+    // directory of this process: nothing of the machine (checkout location, working directory) may reach the outputs
+    let scratch = std::env::temp_dir().join(format!("verif_c20_{}_{}", std::process::id(), order));
+    let rel = "components/card/card.wxss";
+    let _ = std::fs::create_dir_all(scratch.join("components/card"));
+    let old_cwd = std::env::current_dir().ok();
+    let on_disk = std::fs::write(scratch.join(rel), css_inputs[0]).is_ok() && std::env::set_current_dir(&scratch).is_ok();
     for (i, css) in css_inputs.iter().enumerate() {
+        let path = if i == 0 && on_disk { rel } else { "p.wxss" };
         let mk = || {
             let opts = StyleSheetOptions {
                 class_prefix: Some("p".into()),
@@ -253,7 +283,7 @@ pub fn run(tier: &str, seed: u64, order: usize, out: &mut Out) {
                 convert_host: true,
                 host_is: Some("h".into()),
             };
-            let t = StyleSheetTransformer::from_css("p.wxss", css, opts);
+            let t = StyleSheetTransformer::from_css(path, css, opts);
             let (a, b) = t.output_and_low_priority_output();
             let mut s1 = String::new();
             let mut s2 = String::new();
@@ -267,4 +297,8 @@ pub fn run(tier: &str, seed: u64, order: usize, out: &mut Out) {
         let y = mk();
         out.raw(&format!("CSS {} same_in_process={} digest={:016x}", i, x == y, fnv(&x)));
     }
+    if let Some(d) = old_cwd {
+        let _ = std::env::set_current_dir(d);
+    }
+    let _ = std::fs::remove_dir_all(&scratch);
 }
